@@ -67,7 +67,7 @@ def generate(rng, n, tier, stats):
             stats['history_op']['init'] += 1
         for _ in range(rng.randint(1, maxlen)):
             kinds = ['set_new', 'set_new', 'set_replace', 'reject', 'reject', 'reject', 'del', 'rename_axis', 'var_rename_axis', 'set_dims',
-                     'rename_axes', 'set_label', 'set_axis', 'replace_axis', 'set_axis', 'replace_axis', 'rename_key']
+                     'rename_axes', 'set_label', 'set_axis', 'replace_axis', 'set_axis', 'replace_axis', 'rename_key', 'rename_keys_multi']
             # an axis is named by its name or by its POSITION IN THE DATASET (which is not its position in a variable that lacks an
             # earlier dimension or lists its dimensions in another order): positions other than 0 are preferred
             byname = lambda i: rng.random() < (0.3 if i > 0 else 0.5)
@@ -141,6 +141,12 @@ def generate(rng, n, tier, stats):
                 nm = dims[i] if rng.random() < 0.65 else next(fresh)
                 stats['replace_axis_name']['same' if nm == dims[i] else 'new'] += 1
                 op = ['replace_axis', dims[i] if byname(i) else i, {'name': nm, 'labels': rand_labels(rng, n_, kk, 'shuf'), 'kind': kk}]
+            elif k == 'rename_keys_multi':
+                if len(have) < 2: continue
+                m = rng.sample(have, rng.randint(2, len(have)))
+                tgt = m[1:] + (m[:1] if rng.random() < 0.6 else [rng.choice(['z9', 'z8'])])
+                if len(set(tgt)) != len(tgt) or any(t_ in have and t_ not in m for t_ in tgt): continue
+                op = ['rename_keys_multi', [[a_, b_] for a_, b_ in zip(m, tgt)]]
             else:
                 if not have: continue
                 old = rng.choice(have); op = ['rename_key', old, rng.choice([x for x in keys_pool + ['z1', 'z2'] if x not in have] + [old])]
@@ -150,14 +156,13 @@ def generate(rng, n, tier, stats):
             hist.append({'op': op, 'status': status, 'obs': observe(ds), 'intended_reject': k == 'reject'})
         have = list(ds.keys())
         if len(have) >= 2 and rng.random() < 0.2:
-            # rename_keys with several keys at once, the new names overlapping the old ones (swap / cycle / chain): not in the
-            # model (one key per step there), judged by the oracle; always the LAST step of a history
+            # rename_keys with several keys at once, the new names overlapping the old ones (swap / cycle / chain)
             m = rng.sample(have, rng.randint(2, len(have)))
             tgt = m[1:] + (m[:1] if rng.random() < 0.6 else ['z9'])
             op = ['rename_keys_multi', [[a_, b_] for a_, b_ in zip(m, tgt)]]
             before = observe(ds)
             holder = [ds]; status = apply_op(holder, op); ds = holder[0]
-            hist.append({'op': op, 'status': status, 'obs': observe(ds), 'intended_reject': False, 'unmodelled': True, 'before': before})
+            hist.append({'op': op, 'status': status, 'obs': observe(ds), 'intended_reject': False, 'before': before})
             stats['history_op']['rename_keys_multi'] += 1
         stats['history_length'][len(hist)] += 1
         cases.append({'hist': hist})
@@ -215,13 +220,13 @@ def cq_dsop(op):
     if n == 'set_axis': return '(DSetAxis %s %s %s %s)' % (cq_axref(op[1]), cq_kind('U' if op[3] == 'O' else op[3]), ops.cq_labs(op[2]), cq_opt(op[4], cq_str))
     if n == 'replace_axis': return '(DReplaceAxis %s %s)' % (cq_axref(op[1]), ops.cq_axis_in(op[2]))
     if n == 'rename_key': return '(DRenameKey %s %s)' % (cq_str(op[1]), cq_str(op[2]))
+    if n == 'rename_keys_multi': return '(DRenameKeys %s)' % cq_list(['(%s, %s)' % (cq_str(a), cq_str(b)) for a, b in op[1]])
     if n == 'init': return '(DInit %s)' % cq_list(['(%s, %s)' % (cq_str(k), cq_arr_in(a)) for k, a in op[1]])
     raise Unsupported(n)
 
 def coq_case(c, res):
     items = []
     for st, r in zip(c['hist'], res[1]):
-        if st.get('unmodelled'): break       # (the last step, judged by the oracle)
         e = 'None' if r['status'] is None else '(Some %s)' % r['status']
         items.append('(%s, %s, %s)' % (cq_dsop(st['op']), e, cq_obs(r['obs'])))
     return cq_list(items)
